@@ -49,8 +49,8 @@ ASSUMPTIONS = [
     "operands are numbers (dyadic rationals); IEEE rounding is not modelled",
     "well-formed programs: every operator has the operands ISO 32000 gives it, segments and h only inside a "
     "sub-path begun by m/re, sc/scn/SC/SCN operand counts follow the current colour space",
-    "the colour reported is the last one set by a colour operator (None before any); ISO's implicit reset to "
-    "the initial colour of the space on cs/CS is not demanded",
+    "the colour reported is None before any colour operator (pdfminer's representation of the default); "
+    "cs/CS select the initial colour of the new space (ISO 32000-1 Table 74)",
     "zero-segment sub-paths (lone m, m h) are unconstrained: shapes without any l/c/v/y segment are ignored",
     "settings.STRICT is False (library default)",
 ]
@@ -65,6 +65,8 @@ STATEMENT_STATUS: Dict[str, str] = {
     "C16_rect_pts_cex": "proved counter-example", "C16_paint_path_statement_cex": "proved counter-example",
     "C16_paint_flags": "proved (regenerated table = ISO table 60)", "C16_re_path": "proved (regenerated do_re)",
     "C16_page_ctm": "proved (regenerated process_page table)",
+    "C16_initial_colour": "proved (_initial_color = ISO Table 74 for every colour space)",
+    "C16_cs_resets_colour": "proved",
     "C16_never_raises": "proved (model: no exception on any token stream)",
     "C16_no_residue": "proved", "C16_n_paints_nothing": "proved",
     "C16_gstack_untouched": "proved", "C16_qQ_restores": "proved", "C16_q_saves": "proved",
@@ -319,19 +321,37 @@ class OutsideDomain(Exception):
     pass
 
 
-def cs_arity(cs: Dict[str, Any], name: str) -> Optional[Tuple[int, bool]]:
-    """(number of components, is-pattern) of a colour-space name, None when undefined."""
+def cs_space(cs: Dict[str, Any], name: str) -> Optional[Tuple[str, int]]:
+    """(family, number of components) of a colour-space name, None when undefined."""
     pre = dict(PREDEF)
     if name in cs:
         kind, v = cs[name]
-        if kind == "icc" or kind == "devn":
-            return (int(v), False)
+        if kind == "icc":
+            return ("ICCBased", int(v))
+        if kind == "devn":
+            return ("DeviceN", int(v))
         if v in pre:
-            return (pre[v], v == "Pattern")
-        return pre.get(name) and (pre[name], name == "Pattern")
+            return (v, pre[v])
     if name in pre:
-        return (pre[name], name == "Pattern")
+        return (name, pre[name])
     return None
+
+
+def cs_arity(cs: Dict[str, Any], name: str) -> Optional[Tuple[int, bool]]:
+    """(number of components, is-pattern) of a colour-space name, None when undefined."""
+    sp = cs_space(cs, name)
+    return None if sp is None else (sp[1], sp[0] == "Pattern")
+
+
+def iso_init(family: str, n: int):
+    """ISO 32000-1 Table 74 (operator CS): the initial colour of a colour space."""
+    if family == "Pattern" or n == 0:
+        return None
+    if family == "DeviceCMYK":
+        return (F(0), F(0), F(0), F(1))
+    if family in ("Separation", "DeviceN"):
+        return tuple([F(1)] * n)
+    return tuple([F(0)] * n)
 
 
 def subpath_shape(ctm, sp, gs, flags) -> Optional[Dict[str, str]]:
@@ -456,10 +476,12 @@ def spec_run(case) -> List[Dict[str, str]]:
         elif k in ("cs", "CS"):
             if len(a) != 1 or isinstance(a[0], list) or is_num(a[0]):
                 raise OutsideDomain("cs operand")
-            ar = cs_arity(cs, a[0][1:])
-            if ar is None:
+            sp = cs_space(cs, a[0][1:])
+            if sp is None:
                 raise OutsideDomain("undefined colour space")
-            gs["ss" if k == "CS" else "ns"] = ar
+            gs["ss" if k == "CS" else "ns"] = (sp[1], sp[0] == "Pattern")
+            # ISO 32000-1 8.6.8: cs/CS also select the initial colour of the new space
+            gs["sc" if k == "CS" else "nc"] = iso_init(*sp)
         elif k in ("sc", "scn", "SC", "SCN"):
             n, pat = gs["ss" if k.isupper() else "ns"]
             key = "sc" if k.isupper() else "nc"
